@@ -77,10 +77,23 @@ type pfbObs struct {
 
 // runPFB drives pfb.Decode over a simulated source with the given caller buffer
 // sizes and checks every Read against the model while the run proceeds.
+// copyAfter, when >= 0, makes runPFB hand the decoder to io.Copy after that
+// many Read calls (io.Copy uses a WriterTo method if the reader has one).
+var pfbCopyAfter = -1
+
 func runPFB(data []byte, m pfbModel, sch sim.Schedule, tape *sim.Tape, nextBuf func() int, st *sim.Stats, explain bool) (*sim.Outcome, []pfbRead, pfbObs) {
+	return runPFBx(data, m, sch, tape, nextBuf, st, explain, -1, nil)
+}
+
+// runPFBx: copyAfter as above; hook, when set, is called from inside the
+// underlying reader's Read (an I/O point of this decoder) - the duet batch uses
+// it to advance a second, independent decoder there.
+func runPFBx(data []byte, m pfbModel, sch sim.Schedule, tape *sim.Tape, nextBuf func() int, st *sim.Stats, explain bool, copyAfter int, hook func()) (*sim.Outcome, []pfbRead, pfbObs) {
 	src := sim.NewSimReader(data, sch, sim.Fault{}, tape)
 	var under io.Reader = src.Reader()
-	if sch.Seekable {
+	if hook != nil {
+		under = hookedReader{under, hook}
+	} else if sch.Seekable {
 		// a source that has a Seek method which always fails (a pipe or socket
 		// opened as a file): a decoder has no business seeking
 		under = unseekable{src}
@@ -97,6 +110,27 @@ func runPFB(data []byte, m pfbModel, sch sim.Schedule, tape *sim.Tape, nextBuf f
 	zeroNil := 0
 	var scratch []byte
 	for {
+		if copyAfter >= 0 && calls == copyAfter {
+			// the rest goes through io.Copy
+			var rest bytes.Buffer
+			_, err := io.Copy(&rest, r)
+			got = append(got, rest.Bytes()...)
+			if explain {
+				e := ""
+				if err != nil {
+					e = err.Error()
+				}
+				trace = append(trace, pfbRead{-1, rest.Len(), "io.Copy: " + e})
+			}
+			termErr = err
+			if err == nil {
+				termErr = io.EOF // io.Copy hides the EOF it stopped at
+			}
+			if m.wantNonEOF && err == nil {
+				termErr = nil
+			}
+			break
+		}
 		calls++
 		if calls > limit {
 			return &sim.Outcome{Class: "no-progress", Key: "pfb:no-progress", Detail: fmt.Sprintf("decoder did not terminate within %d Read calls", limit)}, trace, ob
@@ -209,7 +243,12 @@ func C14() *sim.Check {
 		m := modelPFB(p)
 		sch := gen.GenSchedule(t, len(data), true)
 		nextBuf, bdesc := gen.GenBufSizes(t)
-		out, trace, ob := runPFB(data, m, sch, t, nextBuf, c.St, c.Explain)
+		copyAfter := -1
+		if t.Choose(6) == 0 {
+			copyAfter = t.Choose(6)
+			c.St.Inc("probe_finished_with_io.Copy")
+		}
+		out, trace, ob := runPFBx(data, m, sch, t, nextBuf, c.St, c.Explain, copyAfter, nil)
 		if c.St != nil {
 			c.St.Inc(fmt.Sprintf("anomaly_%d", an))
 			hasBin := false
@@ -271,6 +310,52 @@ func C14() *sim.Check {
 			out.Key += fmt.Sprintf(":header=%02x%02x", b0, b1)
 			if c.Explain {
 				out.Human = map[string]any{"pfb_hex": fmt.Sprintf("%x", data), "schedule": sch.String(), "reads": trace}
+			}
+		}
+		return out
+	}
+
+	// two independent decoders advanced alternately at each other's I/O points:
+	// whatever one of them does must not disturb the other (no state outside the
+	// decoder value)
+	duet := &sim.Batch{Name: "duet", Quick: 300_000, Thorough: 8_000_000}
+	duet.Run = func(c *sim.RunCtx) *sim.Outcome {
+		t := c.T
+		pa, _ := gen.GenPFB(t, 5, 120)
+		pb, _ := gen.GenPFB(t, 5, 120)
+		da, db := pa.Bytes(), pb.Bytes()
+		ma, mb := modelPFB(pa), modelPFB(pb)
+		// decoder B is driven from inside decoder A's underlying reads
+		srcB := sim.NewSimReader(db, sim.Schedule{Mode: sim.ChunkFixed, K: 1 + t.Choose(3)}, sim.Fault{}, nil)
+		rb := pfb.Decode(srcB.Reader())
+		var gotB []byte
+		var errB error
+		bufB := make([]byte, 1+t.Choose(5))
+		stepB := func() {
+			if errB != nil || t.Choose(2) == 0 {
+				return
+			}
+			n, err := rb.Read(bufB)
+			gotB = append(gotB, bufB[:n]...)
+			errB = err
+		}
+		nextBuf, _ := gen.GenBufSizes(t)
+		out, trace, _ := runPFBx(da, ma, sim.Schedule{Mode: sim.ChunkFixed, K: 1 + t.Choose(3)}, nil, nextBuf, c.St, c.Explain, -1, stepB)
+		big := make([]byte, 8192)
+		for i := 0; errB == nil && i < 1_000_000; i++ {
+			n, err := rb.Read(big)
+			gotB = append(gotB, big[:n]...)
+			errB = err
+		}
+		c.St.Inc("duets")
+		c.St.Case(sim.Mix(sim.HashBytes(da), "duet", sim.HashBytes(db)))
+		if out == nil && (!bytes.Equal(gotB, mb.out) || errB != io.EOF) {
+			out = &sim.Outcome{Class: "wrong-output", Key: "pfb:duet", Detail: fmt.Sprintf("a second decoder advanced in between gave output %q / %v, its stream's model says %q / EOF", clip(gotB), errB, clip(mb.out))}
+		}
+		if out != nil {
+			out.Detail = "two decoders advanced alternately: " + out.Detail
+			if c.Explain {
+				out.Human = map[string]any{"stream_A_hex": fmt.Sprintf("%x", clip(da)), "stream_B_hex": fmt.Sprintf("%x", clip(db)), "reads_A": trace}
 			}
 		}
 		return out
@@ -344,7 +429,7 @@ func C14() *sim.Check {
 		Rule:        "streams: a segment list (types 1/2, lengths 0..300, optional end marker, trailing garbage, or one anomaly: short binary/text segment, bad header, partial header) is drawn from the tape together with an underlying delivery schedule and a caller buffer-size sequence; every Read of pfb.Decode is checked against a 30-line reference model. A case is non-trivial when the stream has a non-empty binary segment and at least one odd caller buffer size was used; distinct = distinct (stream bytes, schedule, buffer sequence) hash. headers: all 65536 first-two-byte values x {one read, 1-byte reads}, each counted once.",
 		Assume:      []string{"the reference model in harness/h_pfb.go is the specification of PFB framing", "underlying readers never return (0, nil) for a non-empty buffer"},
 		RealStub:    map[string]any{"real": []string{"pfb.Decode (unmodified /repo code)", "io.ReadFull"}, "stub": []string{"underlying reader (SimReader)", "caller (buffer-size sequence)"}},
-		Batches:     []*sim.Batch{headers, huge, random},
+		Batches:     []*sim.Batch{headers, huge, duet, random},
 		SimTimeUnit: "Read calls: caller -> decoder and decoder -> simulated source", SimTimeCounters: []string{"src_reads", "decoder_reads"},
 		Probes: []string{"probe_zero_length_segment", "probe_marker_followed_by_garbage", "probe_binary_with_odd_buffer", "anomaly_1", "anomaly_2", "anomaly_3", "anomaly_4"},
 	}
@@ -406,4 +491,15 @@ type unseekable struct{ r *sim.SimReader }
 func (u unseekable) Read(p []byte) (int, error) { return u.r.Read(p) }
 func (u unseekable) Seek(int64, int) (int64, error) {
 	return 0, fmt.Errorf("seek: illegal seek")
+}
+
+// hookedReader calls hook before every Read of the underlying source.
+type hookedReader struct {
+	r    io.Reader
+	hook func()
+}
+
+func (h hookedReader) Read(p []byte) (int, error) {
+	h.hook()
+	return h.r.Read(p)
 }
